@@ -497,6 +497,16 @@ pub fn generate(seed: u64, tier: &str, property: &str) -> RegScenario {
                     v
                 }
             };
+            let mut s = s;
+            if rng.chance(1, 4) {
+                // a suffix that IS a whole template name (and one that is a name minus its first
+                // character): "ends with" includes "equals"
+                let nm = h.name(rng.below(n));
+                if rng.chance(1, 2) && nm.len() > 1 && nm.is_char_boundary(1) {
+                    s.push(nm[1..].to_string());
+                }
+                s.push(nm);
+            }
             h.push(Op::AutoescapeOn { suffixes: s.clone() }, None, false);
             if rng.chance(1, 3) {
                 // reconfigure again right away, keeping some of the suffixes
@@ -548,7 +558,47 @@ pub fn generate(seed: u64, tier: &str, property: &str) -> RegScenario {
             h.push(Op::SetGlobal { key, val, via_extend: rng.chance(1, 3) }, None, false);
         } else if roll < 80 {
             h.push(Op::Restart, None, false);
-        } else if roll < 83 {
+        } else if roll < 88 && !h.g.world.comps.is_empty() && !use_disk {
+            // a provider re-registered with a change in a component SIGNATURE only (a default
+            // value), body untouched: callers in other templates must bind against the new one
+            let ci = rng.below(h.g.world.comps.len());
+            let ti = h.g.world.comps[ci].tpl;
+            let d = h.g.cfg.delims.clone();
+            let src = h.current[ti].clone();
+            let marker = format!("{} component ", d.bs);
+            if let Some(a) = src.find(&marker) {
+                if let Some(rel) = src[a..].find(d.be.as_str()) {
+                    let header = &src[a..a + rel];
+                    let changed = if header.contains("true") {
+                        header.replacen("true", "false", 1)
+                    } else if header.contains("false") {
+                        header.replacen("false", "true", 1)
+                    } else {
+                        // first digit after an `=`
+                        let mut out = String::new();
+                        let mut done = false;
+                        let mut after_eq = false;
+                        for c in header.chars() {
+                            if c == '=' {
+                                after_eq = true;
+                            }
+                            if !done && after_eq && c.is_ascii_digit() {
+                                out.push(if c == '9' { '1' } else { ((c as u8) + 1) as char });
+                                done = true;
+                            } else {
+                                out.push(c);
+                            }
+                        }
+                        out
+                    };
+                    if changed != header {
+                        let new_src = format!("{}{}{}", &src[..a], changed, &src[a + rel..]);
+                        h.current[ti] = new_src.clone();
+                        h.push(Op::AddRaw { name: h.name(ti), source: new_src }, Some("component-signature-only-change"), true);
+                    }
+                }
+            }
+        } else if roll < 90 {
             // degenerate and idempotent calls, right after something else changed: no "nothing
             // to do" shortcut may skip work that the earlier change made necessary
             match rng.below(7) {
